@@ -133,8 +133,22 @@ def r1_keys(ctx):
             n_exit += 1
             stx = _es(c)
             lossy = None
+            malformed = None
             for clause in pat.guard_dnf(ctx, rd_, stx, asserts=False, inline_=True) or []:
                 for a in clause:
+                    if a[0] == "truth" and a[1].startswith("isinstance("):
+                        # a test of the kind of what was read: isinstance(<value>, <type>)
+                        try:
+                            ic = ast.parse(a[1], mode="eval").body
+                        except SyntaxError:
+                            ic = None
+                        tn = {"dict", "list", "tuple", "str", "int", "float", "bool", "set"}
+                        if not (isinstance(ic, ast.Call) and len(ic.args) == 2 and
+                                not (isinstance(ic.args[0], ast.Name) and ic.args[0].id in tn)
+                                and all(isinstance(x, ast.Name) and x.id in tn for x in (
+                                    ic.args[1].elts if isinstance(ic.args[1], ast.Tuple)
+                                    else [ic.args[1]]))):
+                            malformed = a
                     if a[0] == "truth" and not a[1].startswith(("isinstance(", "callable(")) \
                             and " in " not in a[1] and "notin" not in a[1]:
                         lossy = a
@@ -142,7 +156,13 @@ def r1_keys(ctx):
                             {"[]", "''", "0", "{}", "()"} & set(a[1:]) or
                             any(x.startswith("len(") for x in a[1:])):
                         lossy = a
-            if lossy is not None:
+            if malformed is not None:
+                ctx.bad("C13.R1", rd_, c, "%s tests the kind of what it read with `%s`, "
+                        "which is not isinstance(<value>, <type>): the test raises (or "
+                        "refuses every file) instead of telling a dump from something "
+                        "else" % (rd_.qual, malformed[1]),
+                        text_="%s gives up on absence only" % rd_.qual)
+            elif lossy is not None:
                 ctx.bad("C13.R1", rd_, c, "%s gives up when `%s` is %s: a value "
                         "that is present but empty / zero (what dump writes for "
                         "an empty fiber: coords: [], payloads: []) is refused, so "
@@ -534,6 +554,13 @@ def r4_levels(ctx):
                                       "level-by-level conversion")
     ctx.floor("C13.R2", n, 4, "recursion steps of the converters")
     _uncompress_shape(ctx)
+    fu = ctx.method("Fiber", "uncompress")
+    fe = ctx.method("Fiber", "_fillempty")
+    n_ = pat.check_param_positions(ctx, "C13.R2", fu, {"uncompress": fu, "_fillempty": fe},
+                                   "uncompress, level by level")
+    n_ += pat.check_param_positions(ctx, "C13.R2", fe, {"_fillempty": fe},
+                                    "filling an absent sub-tree")
+    ctx.floor("C13.R2", n_, 3, "level-by-level calls of uncompress / _fillempty")
 
 
 def _uncompress_shape(ctx):
